@@ -5,11 +5,13 @@ import samplib as S
 
 PID = "C07"
 LEVEL = "proof"
-COQ_TARGETS = ["Props/C07.vo", "Props/C07_fp.vo", "Props/C07_fl.vo"]
-PROPS_FILES = ["C07", "C07_fp", "C07_fl"]
+COQ_TARGETS = ["Props/C07.vo", "Props/C07_fp.vo", "Props/C07_fl.vo", "Props/C07_scale.vo"]
+PROPS_FILES = ["C07", "C07_fp", "C07_fl", "C07_scale"]
 THEOREMS = ["C07_fingerprints", "C07_from_zscore_fl_def", "C07_from_zscore_fl_value", "C07_from_zscore_fl_error", "C07_scale_pow2_exact",
             "C07_from_zscore_fl_nan", "C07_from_zscore_fl_z_inf", "C07_from_zscore_fl_sd_zero",
-            "C07_affine_sub_fl_def", "C07_affine_sub_fl_value", "C07_affine_sub_fl_error", "C07_fl_source"]
+            "C07_affine_sub_fl_def", "C07_affine_sub_fl_value", "C07_affine_sub_fl_error", "C07_fl_source",
+            "C07_scale_fl_def", "C07_scale_source", "C07_scale_fl_value", "C07_scale_fl_error", "C07_scale_fl_comm_value", "C07_scale_fl_nonneg",
+            "C07_scale_fl_monotone", "C07_scale_fl_pow2"]
 TRUSTED_BASE = [
     "Coq 8.16.1 kernel; Proofs/Equivariance.v: on the sampler models (coq/Model/Continuous.v, tied to the code by C01's pathwise "
     "correspondence) the decision tree for (loc, scale) is the decision tree of the standard sampler with the affine expression applied at "
